@@ -25,6 +25,7 @@ type Renderer struct {
 	fieldStores map[*ssa.Alloc][]*ssa.Store
 	wholeStores map[*ssa.Alloc][]*ssa.Store
 	reach       map[*ssa.BasicBlock]map[*ssa.BasicBlock]bool
+	callSeen    map[string][]*ssa.Call
 }
 
 func (p *Prog) R(fn *ssa.Function) *Renderer {
@@ -32,7 +33,7 @@ func (p *Prog) R(fn *ssa.Function) *Renderer {
 		return r
 	}
 	r := &Renderer{p: p, fn: fn, memo: map[ssa.Value]string{}, inprog: map[ssa.Value]bool{},
-		allocN: map[*ssa.Alloc]int{}, fieldStores: map[*ssa.Alloc][]*ssa.Store{}, wholeStores: map[*ssa.Alloc][]*ssa.Store{}}
+		allocN: map[*ssa.Alloc]int{}, fieldStores: map[*ssa.Alloc][]*ssa.Store{}, wholeStores: map[*ssa.Alloc][]*ssa.Store{}, callSeen: map[string][]*ssa.Call{}}
 	p.rend[fn] = r
 	n := map[string]int{}
 	for _, b := range fn.Blocks {
@@ -50,6 +51,14 @@ func (p *Prog) R(fn *ssa.Function) *Renderer {
 						r.fieldStores[a] = append(r.fieldStores[a], in)
 					}
 				}
+			}
+		}
+	}
+	// assign call ordinals in instruction order (deterministic)
+	for _, b := range fn.Blocks {
+		for _, in := range b.Instrs {
+			if c, ok := in.(*ssa.Call); ok {
+				r.E(c)
 			}
 		}
 	}
@@ -398,6 +407,14 @@ func (r *Renderer) render(v ssa.Value) string {
 		}
 		return s + "]"
 	case *ssa.Convert:
+		// integer<->integer, string<->bytes conversions are transparent; a change
+		// between integer and floating point arithmetic is not (division differs)
+		if isFloat(x.Type()) != isFloat(x.X.Type()) {
+			if isFloat(x.Type()) {
+				return "float(" + r.E(x.X) + ")"
+			}
+			return "int(" + r.E(x.X) + ")"
+		}
 		return r.E(x.X)
 	case *ssa.ChangeType:
 		return r.E(x.X)
@@ -426,7 +443,27 @@ func (r *Renderer) render(v ssa.Value) string {
 	case *ssa.BinOp:
 		return r.binop(x.Op, r.E(x.X), r.E(x.Y))
 	case *ssa.Call:
-		return r.call(&x.Call)
+		base := r.call(&x.Call)
+		if pureCall(&x.Call) {
+			return base
+		}
+		// distinct executions of a call that is not known to be pure are distinct values:
+		// the 2nd, 3rd ... call instruction with the same rendering gets an ordinal
+		lst := r.callSeen[base]
+		idx := -1
+		for i, c := range lst {
+			if c == x {
+				idx = i
+			}
+		}
+		if idx < 0 {
+			r.callSeen[base] = append(lst, x)
+			idx = len(lst)
+		}
+		if idx == 0 {
+			return base
+		}
+		return base + "‹" + fmt.Sprint(idx+1) + "›"
 	case *ssa.MakeSlice:
 		return "make(" + typeShort(x.Type()) + "," + r.E(x.Len) + "," + r.E(x.Cap) + ")"
 	case *ssa.MakeMap:
@@ -503,11 +540,20 @@ func (r *Renderer) call(c *ssa.CallCommon) string {
 	} else {
 		name = "callfn(" + r.E(c.Value) + ")"
 	}
-	for _, a := range c.Args {
+	for i, a := range c.Args {
 		if isContextType(a.Type()) {
 			continue
 		}
-		args = append(args, r.E(a))
+		s := r.E(a)
+		if i == 0 && !c.IsInvoke() {
+			// method call on the function's own (embedded) keeper receiver: the receiver is implicit
+			if f := calleeFunc(c); f != nil && f.Type().(*types.Signature).Recv() != nil {
+				if t := strings.TrimLeft(s, "^"); t == "$0" || t == "$0.Keeper" {
+					continue
+				}
+			}
+		}
+		args = append(args, s)
 	}
 	return name + "(" + strings.Join(args, ", ") + ")"
 }
@@ -703,6 +749,59 @@ func (r *Renderer) originReaches(l ssa.Instruction, a *ssa.Alloc, path string) b
 		if t, _ := ps.Find(); t != nil {
 			return true
 		}
+	}
+	return false
+}
+
+func isFloat(t types.Type) bool {
+	b, ok := t.Underlying().(*types.Basic)
+	return ok && b.Info()&types.IsFloat != 0
+}
+
+// pureCall: the result depends only on the (immutable) argument values, so two
+// call instructions with equal rendered arguments denote the same value.
+// Everything else (store reads, methods on mutable objects such as bitmaps,
+// readers, decoders) is treated as a fresh value per call instruction.
+func pureCall(c *ssa.CallCommon) bool {
+	if b, ok := c.Value.(*ssa.Builtin); ok {
+		switch b.Name() {
+		case "len", "cap", "min", "max":
+			return true
+		}
+		return false
+	}
+	f := calleeFunc(c)
+	if f == nil {
+		return false
+	}
+	name := funcShort(f)
+	pkg := ""
+	if f.Pkg() != nil {
+		pkg = f.Pkg().Path()
+	}
+	sig := f.Type().(*types.Signature)
+	if sig.Recv() != nil {
+		// generated protobuf getters and the vote-message interface of the repository
+		if strings.HasPrefix(pkg, modPath) && (strings.HasPrefix(f.Name(), "Get") || f.Name() == "MethodName" || f.Name() == "VoteSigDoc" || f.Name() == "Threshold" || f.Name() == "SignDoc" || f.Name() == "CMPubkey") {
+			return true
+		}
+		switch name {
+		case "Context.ChainID", "Context.BlockTime", "Context.BlockHeight", "Context.HeaderHash", "Context.ExecMode", "Context.CometInfo", "Context.VoteInfos",
+			"Context.EventManager", "Context.ConsensusParams", "BlockInfo.GetProposerAddress", "BlockInfo.GetEvidence", "error.Error",
+			"Int.BigInt", "Int.IsZero", "Int.LT", "Int.GT", "Int.GTE", "Int.LTE", "Int.Equal", "Int.IsNegative", "Int.IsUint64", "Int.Uint64", "Int.Abs",
+			"Address.Bytes", "Hash.Bytes", "Time.Add", "Time.Sub", "Time.After", "Time.Before", "Coins.AmountOf", "Coins.IsAllGTE", "ConsAddress.Bytes":
+			return true
+		}
+		return false
+	}
+	switch {
+	case pkg == modPath+"/pkg/crypto":
+		return true
+	case name == "relayer/types.EncodePublicKey", name == "relayer/types.VoteSignDoc", name == "collections.Join", name == "bytes.Equal",
+		name == "cosmos-sdk/types.UnwrapSDKContext", name == "locking/types.TokenDenom", name == "locking/types.ValidatorName",
+		name == "common.BytesToHash", name == "common.BytesToAddress", name == "sdkmath.NewIntFromUint64", name == "sdkmath.NewIntFromBigInt",
+		name == "sdkmath.LegacyNewDec", name == "sdkmath.LegacyNewDecFromInt", name == "sdkmath.ZeroInt", name == "cosmos-sdk/types.NewCoin":
+		return true
 	}
 	return false
 }
